@@ -1590,6 +1590,11 @@ fn build_sub(lhs: &AstNode, rhs: &AstNode) -> Result<Evaluator> {
           }
         }
       }
+      Value::DaysAndTimeDuration(ref lh) => {
+        if let Value::DaysAndTimeDuration(ref rh) = rhv {
+          return Value::DaysAndTimeDuration(lh.clone() - rh.clone());
+        }
+      }
       _ => {}
     }
     //TODO make a macro for incompatible types
